@@ -51,7 +51,7 @@ deriving Repr
 /-- `_to_bytes` -/
 def PyStr.toBytes : PyStr → Bytes
   | .bytes b => b
-  | .text s => s.toUTF8.toList
+  | .text s => s.toUTF8.data.toList
 
 /-- the shapes `Encoder.encode` accepts for one header -/
 inductive FieldForm
